@@ -556,7 +556,9 @@ def run_impl(case):
                         mm[None] = None
                 try:
                     prog = pt.create_program(parameters=env, measurement_mapping=mm, to_single_waveform=set(singles))
-                except (ValueError, ParameterNotIntegerException, AssertionError) as e:
+                except vlib.Timeout:
+                    raise
+                except Exception as e:      # any refusal; whether refusing is legitimate is decided by check_spec
                     return {'rejected': type(e).__name__}
                 if prog is None:
                     return {'none': True}
